@@ -131,7 +131,7 @@ def cmd_runall(pattern):
     ids = sorted(x for x in os.listdir(os.path.join(VERIF, 'seeded')) if re.search(pattern, x))
     groups = {}
     for i in ids:
-        groups.setdefault(i.split('-')[0].rstrip('b'), []).append(i)
+        groups.setdefault(i.split('-')[0][:3], []).append(i)      # C01, C01b, C01c ... one group: they share build/ and evidence files
 
     def work(g):
         for sid in g:
